@@ -15,7 +15,7 @@ claimed = {
                 note="The CPU-time clause is NOT decided: deterministic simulation does not measure CPU seconds; superlinear CPU work that makes no extra reader call or event is outside this technique. K is deliberately generous (4096 CBE / 16384 CTE bytes per input byte) because unmarshaling really costs hundreds of bytes per input byte; the violations aimed at are 10^2..10^9 times larger."),
     "C09": dict(cat="fault_enumeration", ref="5.3", technique="deterministic simulation: exhaustive crash-point (cut) enumeration per generated document, prefix relation + completeness reference model",
                 text="For each generated valid document every cut point 0<k<len is enumerated for the from-memory and the reader entry point and for untyped/typed templates; oracle: error returned, partial value is a prefix of the full value, and (event-stream documents) every completely delivered list element / map entry is present per a reference model built from recorded encoder offsets. Fault enumeration is the right level: the crash-point space of one document is finite and small, the document space is sampled.",
-                note="Rule enforcement stays on (with rules disabled nothing is meant to detect a structurally incomplete document). Zero value of a template type counts as 'nothing decoded'. Records and marker-wrapped arrays are excluded from documents because the library's full value for them is already wrong (pure decode defects outside this property). One known finding (CTE token split by the cut)."),
+                note="Rule enforcement stays on (with rules disabled nothing is meant to detect a structurally incomplete document). Zero value of a template type counts as 'nothing decoded'. Marker-wrapped arrays are excluded from documents because the library's full value for them is already wrong (a pure decode defect outside this property); records are drawn in two thirds of the stream-built documents (opaque to the completeness model, subject to the prefix clause). One known finding (CTE token split by the cut)."),
     "C11": dict(cat="exploration", ref="5.4", technique="deterministic simulation: producer flush-schedule exploration (chunk boundaries x data-event splits) with injected delivery faults against a reference array acceptor",
                 text="The same array is delivered to a fresh validator under exhaustive single/double splits (small payloads), drawn multi-chunk schedules incl. splits inside elements and characters and zero-length chunks, and fault schedules (under/over delivery, missing final chunk, chunk ending inside a character, invalid UTF-8, data after the end, wrong header, invalid media type); verdict must equal a 60-line reference acceptor written from the property statement and forwarded bytes must equal delivered bytes.",
                 note="Reference acceptor is the trusted base; MaxArraySizeBytes stays at its default (limits are C14) except in the position 'second array under a limit that fits each array but not both'."),
